@@ -399,9 +399,9 @@ func run(out *Out, r *Rand, tier string, replay []string) {
 		out.Close("replay")
 		return
 	}
-	n := map[string]int{"c04": 600, "c05": 400, "c16": 500}[*mode]
+	n := map[string]int{"c04": 1500, "c05": 1000, "c16": 1200}[*mode]
 	if tier == "thorough" {
-		n *= 30
+		n *= 20
 	}
 	st := &genStats{srcKinds: map[string]int{}, ptrKinds: map[string]int{}, arenas: map[string]int{}}
 	skipped := 0
